@@ -1,6 +1,6 @@
 CONSTANTS
   Defects = {"ma_nopath"}
-  Family = "cache"
+  Family = "cache_small"
   Deep = FALSE
 INIT Init
 NEXT Next
